@@ -13,7 +13,8 @@
 (*   - ports: protocol tcp, mode ingress; secrets: target                  *)
 (*     /run/secrets/<source>; depends_on: condition service_started,       *)
 (*     required true; env_file: required true;                             *)
-(*     pull_policy if_not_present is missing                               *)
+(*     pull_policy if_not_present is missing; a device reservation         *)
+(*     without count and without device_ids reserves `all`                 *)
 (* Explicit values are never overwritten.                                  *)
 (***************************************************************************)
 EXTENDS Merge
@@ -46,6 +47,8 @@ PortExplicit(p) == IF IsM(p) THEN Default(Default(p, "protocol", S("tcp")), "mod
 SecretExplicit(s) == LET m == IF IsM(s) THEN s ELSE M1("source", s) IN Default(m, "target", S("/run/secrets/" \o Get(m, "source").v))
 EnvFileExplicit(e) == IF IsM(e) THEN Default(e, "required", B(TRUE)) ELSE M2("path", e, "required", B(TRUE))
 
+\* device reservations (deploy.resources.reservations.devices[], gpus[]): count "all" unless a count or device ids are given
+DeviceExplicit(d) == IF IsM(d) /\ ~Has(d, "count") /\ ~Has(d, "device_ids") THEN Put(d, "count", S("all")) ELSE d
 ServiceExplicit(svc) ==
   LET s1 == IF Has(svc, "network_mode") THEN svc
             ELSE IF ~Has(svc, "networks") \/ Get(svc, "networks") \in {EmptyM, EmptyL, Null} THEN Put(svc, "networks", M1("default", Null))
@@ -54,7 +57,8 @@ ServiceExplicit(svc) ==
       s3 == IF Has(s2, "ports") THEN Put(s2, "ports", MapSeq(PortExplicit, Get(s2, "ports"))) ELSE s2
       s4 == IF Has(s3, "secrets") THEN Put(s3, "secrets", MapSeq(SecretExplicit, Get(s3, "secrets"))) ELSE s3
       s5 == IF Has(s4, "env_file") THEN Put(s4, "env_file", MapSeq(EnvFileExplicit, L(ToList(Get(s4, "env_file"))))) ELSE s4
-      s6 == IF Has(s5, "pull_policy") /\ Get(s5, "pull_policy") = S("if_not_present") THEN Put(s5, "pull_policy", S("missing")) ELSE s5
+      s6a == IF Has(s5, "pull_policy") /\ Get(s5, "pull_policy") = S("if_not_present") THEN Put(s5, "pull_policy", S("missing")) ELSE s5
+      s6 == IF Has(s6a, "gpus") /\ IsL(Get(s6a, "gpus")) THEN Put(s6a, "gpus", MapSeq(DeviceExplicit, Get(s6a, "gpus"))) ELSE s6a
       deps == DependsExplicit(s6)
   IN IF Keys(deps) = {} THEN s6 ELSE Put(s6, "depends_on", deps)
 
